@@ -57,6 +57,16 @@ func runHistory(c *Ctx, p *profile) (*hist, error) {
 	if p.tableSize > 0 {
 		o.TableSize = p.tableSize
 	}
+	// storage-format options vary freely: none of them may change a result
+	if c.Rng.Intn(3) == 0 {
+		o.Compression = 1 + c.Rng.Intn(3)
+	}
+	if c.Rng.Intn(4) == 0 {
+		o.Checksums = 1 + c.Rng.Intn(3)
+	}
+	if c.Rng.Intn(4) == 0 {
+		o.BlockSize = []int{32, 128, 4096}[c.Rng.Intn(3)]
+	}
 	h, err := newHist(c, o)
 	if err != nil {
 		return nil, err
